@@ -3,15 +3,20 @@
 package dnsforward
 
 import (
+	"context"
+	"crypto/tls"
 	"encoding/binary"
 	"fmt"
 	"net"
+	"net/http"
 	"net/netip"
+	"net/url"
 	"strings"
 	"sync/atomic"
 	"testing"
 	"time"
 
+	"github.com/AdguardTeam/AdGuardHome/internal/aghtest"
 	"github.com/AdguardTeam/AdGuardHome/internal/filtering"
 	"github.com/AdguardTeam/AdGuardHome/internal/querylog"
 	"github.com/AdguardTeam/AdGuardHome/internal/stats"
@@ -273,6 +278,193 @@ type c03Stats struct {
 
 func (l *c03Stats) Update(*stats.Entry)                                   { l.updates.Add(1) }
 func (l *c03Stats) ShouldCount(string, uint16, uint16, []string) bool { return true }
+
+// ---- full contexts: what HandleBefore reads from a proxy.DNSContext
+
+type c03Ctx struct {
+	Proto   proxy.Proto
+	HasConn bool
+	SNI     string
+	HasReq  bool
+	Path    string
+	HasTLS  bool
+	ReqSNI  string
+	HostHdr string
+	Addr    netip.Addr
+	Req     *dns.Msg
+	RID     uint64
+	// The generator's own record of how a ClientID was presented (the
+	// monitor's ground truth, independent of the extraction code):
+	// "none", "valid" (Presented is the label as sent) or "invalid".
+	Kind      string
+	Presented string
+	Route     string
+}
+
+func (x *c03Ctx) pctx() *proxy.DNSContext {
+	p := &proxy.DNSContext{Proto: x.Proto, Req: x.Req, RequestID: x.RID, Addr: netip.AddrPortFrom(x.Addr, 5353)}
+	if x.HasReq {
+		r := &http.Request{ProtoMajor: 1, ProtoMinor: 1, URL: &url.URL{Path: x.Path}, Host: x.HostHdr}
+		if x.HasTLS {
+			r.TLS = &tls.ConnectionState{ServerName: x.ReqSNI}
+		}
+		p.HTTPRequest = r
+	}
+	if x.HasConn {
+		if x.Proto == proxy.ProtoQUIC {
+			p.QUICConnection = testQUICConnection{serverName: x.SNI}
+		} else {
+			p.Conn = testTLSConn{serverName: x.SNI}
+		}
+	}
+	return p
+}
+
+func (x *c03Ctx) coq() string {
+	req := "(@None (bytes * option bytes * bytes))"
+	if x.HasReq {
+		req = "(Some (" + vfBytes(x.Path) + ", " + vfOpt("bytes", x.HasTLS, vfBytes(x.ReqSNI)) + ", " + vfBytes(x.HostHdr) + "))"
+	}
+	return vfApp("mk_ctx", c03ProtoCoq(x.Proto), vfOpt("bytes", x.HasConn, vfBytes(x.SNI)), req,
+		vfOptAddrCoq(x.Addr), c03QCoq(x.Req), vfN(x.RID))
+}
+
+func (x *c03Ctx) desc() map[string]any {
+	return map[string]any{"proto": string(x.Proto), "has_conn": x.HasConn, "conn_server_name": x.SNI, "has_req": x.HasReq,
+		"url_path": x.Path, "req_has_tls": x.HasTLS, "req_tls_name": x.ReqSNI, "req_host": x.HostHdr,
+		"addr": x.Addr.String(), "question": fmt.Sprint(x.Req.Question), "request_id": x.RID,
+		"presented": x.Presented, "kind": x.Kind, "route": x.Route}
+}
+
+// wantID is the ClientID the request carries according to the generator.
+func (x *c03Ctx) wantID() string {
+	if x.Kind == "valid" {
+		return strings.ToLower(x.Presented)
+	}
+	return ""
+}
+
+var c03BadLabels = []string{"bad_id", "-x", "x-", "a b", strings.Repeat("y", 64), "\xc3\xbc", "a%2fb"}
+
+func c03FlipCase(r *vfRand, s string) string {
+	b := []byte(s)
+	for i, c := range b {
+		if r.Chance(1, 3) {
+			if c >= 'a' && c <= 'z' {
+				b[i] = c - 32
+			} else if c >= 'A' && c <= 'Z' {
+				b[i] = c + 32
+			}
+		}
+	}
+	return string(b)
+}
+
+var c03Secure = []proxy.Proto{proxy.ProtoTLS, proxy.ProtoHTTPS, proxy.ProtoQUIC}
+
+// c03GenCtx draws a context; srv/strict are the server's TLS settings.
+func c03GenCtx(r *vfRand, srv string, strict bool, addr netip.Addr, req *dns.Msg, rid uint64) *c03Ctx {
+	x := &c03Ctx{Addr: addr, Req: req, RID: rid, Kind: "none"}
+	x.Proto = vfPick(r, c03Protos)
+	if r.Chance(2, 3) {
+		x.Proto = vfPick(r, c03Secure)
+	}
+	label, kind := "", "none"
+	switch r.Intn(8) {
+	case 0:
+	case 1:
+		label, kind = vfPick(r, c03BadLabels), "invalid"
+	default:
+		label, kind = c03FlipCase(r, vfPick(r, c03CIDs)), "valid"
+	}
+	name := srv
+	if kind != "none" {
+		name = label + "." + srv
+	}
+	// sniKind: what presenting [name] as the server name means.
+	sniKind := kind
+	if srv == "" {
+		sniKind = "none"
+	}
+	lookalike := func() {
+		if kind != "none" && srv != "" && r.Chance(1, 8) {
+			name = vfPick(r, []string{label + "-" + srv, label + ".x." + srv, label + "." + srv + ".evil.net", label + srv})
+			x.Route += "-lookalike"
+			if strict {
+				sniKind = "invalid"
+			} else {
+				sniKind = "none"
+			}
+		}
+	}
+	switch x.Proto {
+	case proxy.ProtoTLS, proxy.ProtoQUIC:
+		x.Route = "sni"
+		lookalike()
+		x.HasConn, x.SNI, x.Kind = true, name, sniKind
+		if r.Chance(1, 30) {
+			x.HasConn, x.SNI, x.Kind, x.Route = false, "", "none", "conn-no-tls"
+			if srv != "" {
+				x.Kind = "invalid"
+			}
+		}
+	case proxy.ProtoHTTPS:
+		x.HasReq = true
+		switch r.Intn(5) {
+		case 0, 1:
+			x.Route = "doh-path"
+			x.HasTLS, x.ReqSNI, x.Kind = true, srv, kind
+			if kind == "none" {
+				x.Path = vfPick(r, []string{"/dns-query", "/dns-query/", "//dns-query/."})
+			} else {
+				x.Path = vfPick(r, []string{"/dns-query/" + label, "/dns-query/" + label + "/", "//dns-query/./" + label,
+					"/x/../dns-query/" + label, "dns-query/" + label})
+			}
+		case 2:
+			x.Route = "doh-tls-name"
+			lookalike()
+			x.Path = vfPick(r, []string{"/dns-query", "/dns-query/"})
+			x.HasTLS, x.ReqSNI, x.HostHdr, x.Kind = true, name, "x1."+srv, sniKind
+		case 3:
+			x.Route = "doh-host-header"
+			lookalike()
+			x.Path = "/dns-query"
+			x.HostHdr, x.Kind = vfPick(r, []string{name, name + ":443"}), sniKind
+			if x.HostHdr == "" {
+				x.HasTLS, x.ReqSNI = true, srv
+			}
+		default:
+			x.Route = "doh-path-wins"
+			x.HasTLS, x.ReqSNI, x.Kind = true, "x1."+srv, kind
+			x.Path = "/dns-query/" + label
+			if kind == "none" {
+				x.Path, x.ReqSNI = "/dns-query", srv
+			}
+		}
+		if r.Chance(1, 25) {
+			x.Path, x.Kind, x.Route = vfPick(r, []string{"/foo", "/dns-query/" + label + "/extra", "/", ""}), "invalid", "doh-bad-path"
+			if kind == "none" {
+				x.Path = "/foo"
+			}
+		}
+		if r.Chance(1, 40) {
+			x.HasReq, x.Kind, x.Route = false, "invalid", "doh-nil-request"
+		}
+	default:
+		// plain protocols: leftovers in the context must not matter
+		x.Route = "plain"
+		if r.Bool() {
+			x.HasConn, x.SNI = true, name
+		}
+		if r.Bool() {
+			x.HasReq, x.Path, x.HostHdr = true, "/dns-query/kid", name
+		}
+	}
+	if x.Kind == "valid" {
+		x.Presented = label
+	}
+	return x
+}
 
 // ---- the test
 
@@ -619,6 +811,452 @@ func TestVerifC03(t *testing.T) {
 		}
 	}
 
+	// --- HandleBefore on full contexts: ClientID extraction + decision + cache
+	ctxCase := func(allowed, blocked []string, hosts []*vfRule, srv string, strict bool, x *c03Ctx, extra ...string) {
+		a, err := newAccessCtx(allowed, blocked, vfRuleTexts(hosts))
+		if err != nil {
+			t.Fatalf("newAccessCtx: %v", err)
+		}
+		s := &Server{
+			conf:          ServerConfig{TLSConf: &TLSConfig{ServerName: srv, StrictSNICheck: strict}},
+			baseLogger:    slogutil.NewDiscardLogger(),
+			access:        a,
+			clientIDCache: cache.New(cache.Config{EnableLRU: true, MaxCount: 16}),
+		}
+		herr := s.HandleBefore(nil, x.pctx())
+		var key [8]byte
+		binary.BigEndian.PutUint64(key[:], x.RID)
+		cached := s.clientIDCache.Get(key[:])
+		count := s.clientIDCache.Stats().Count
+
+		var obs, class string
+		var bre *proxy.BeforeRequestError
+		switch {
+		case herr == nil:
+			obs = vfApp("BContinue", vfOpt("bytes", cached != nil, vfBytes(string(cached))))
+			class = "before-continue"
+		case errors.As(herr, &bre):
+			switch bre.Response.Rcode {
+			case dns.RcodeRefused:
+				obs, class = "BRefused", "before-refused"
+			case dns.RcodeServerFailure:
+				obs, class = "BServfail", "before-servfail"
+			default:
+				obs, class = "BServfail (* unexpected rcode *)", "before-other"
+			}
+		default:
+			obs, class = "BDrop", "before-drop"
+		}
+		classes := append([]string{"ctx-" + class, "ctx-proto-" + string(x.Proto), "ctx-route-" + x.Route, "ctx-clientid-" + x.Kind}, extra...)
+		id := x.wantID()
+		if x.Kind == "valid" && x.Presented != id {
+			classes = append(classes, "ctx-clientid-case-differs")
+		}
+		c := vfCase{
+			Coq: vfApp("CCtx", c03EntriesCoq(allowed), c03EntriesCoq(blocked), vfRulesCoq(hosts), vfBytes(srv), vfBool(strict),
+				x.coq(), obs),
+			Nontrivial: len(allowed)+len(blocked)+len(hosts) > 0 || x.Kind != "none",
+			Classes:    classes,
+			MonitorOK:  true,
+			Desc: map[string]any{"allowed": allowed, "disallowed": blocked, "blocked_hosts": vfRuleTexts(hosts),
+				"server_name": srv, "strict": strict, "ctx": x.desc(), "outcome": obs},
+		}
+		fail := func(msg string) {
+			c.MonitorOK = false
+			c.MonitorMsg = msg + fmt.Sprintf(" (allowed=%q disallowed=%q blocked_hosts=%q server_name=%q strict=%v ctx=%v)",
+				allowed, blocked, vfRuleTexts(hosts), srv, strict, x.desc())
+			c.FindingKey = "ctx-" + vfHash(allowed, blocked, vfRuleTexts(hosts), srv, strict, fmt.Sprint(x.desc()))
+		}
+		noReply := x.Proto == proxy.ProtoUDP || x.Proto == proxy.ProtoDNSCrypt
+		switch {
+		case class != "before-continue" && count != 0:
+			fail("a request that was not let through (" + class + ") left an entry in the ClientID cache")
+		case x.Kind == "invalid":
+			if class != "before-servfail" {
+				fail("request with an unusable ClientID must be answered SERVFAIL and not served, got " + class)
+			}
+		default:
+			excluded := c03Excluded(allowed, blocked, x.Addr, id)
+			hostMust := -1
+			if len(x.Req.Question) == 1 {
+				hostMust = c03HostMust(hosts, strings.ToLower(strings.TrimSuffix(x.Req.Question[0].Name, ".")), x.Req.Question[0].Qtype)
+			}
+			switch {
+			case excluded || hostMust > 0:
+				if excluded && id != "" && c03Listed(append(append([]string{}, blocked...), allowed...), netip.Addr{}, id) {
+					c.Classes = append(c.Classes, "ctx-decided-by-clientid")
+				}
+				if noReply && class != "before-drop" {
+					fail("excluded request over " + string(x.Proto) + " must get no reply, got " + class)
+				} else if !noReply && class != "before-refused" {
+					fail("excluded request over " + string(x.Proto) + " must get REFUSED, got " + class)
+				}
+			case hostMust < 0:
+				if class != "before-continue" {
+					fail("request that the access settings do not exclude was not served: " + class)
+				} else if string(cached) != id || (id == "") != (cached == nil) {
+					fail(fmt.Sprintf("admitted request presented ClientID %q but the cache holds %q under its request id", id, cached))
+				}
+			}
+		}
+		out.Emit(c)
+	}
+	{
+		base := func(p proxy.Proto) *c03Ctx {
+			return &c03Ctx{Proto: p, Addr: ip("192.168.1.5"), Req: q("a.test.", dns.TypeA), RID: 700, Kind: "none"}
+		}
+		with := func(x *c03Ctx, f func(*c03Ctx)) *c03Ctx { f(x); return x }
+		S := c03SrvName
+		// a disallowed ClientID through every route, in another letter case
+		ctxCase(nil, []string{"MyPhone"}, nil, S, true, with(base(proxy.ProtoTLS), func(x *c03Ctx) {
+			x.HasConn, x.SNI, x.Kind, x.Presented, x.Route = true, "mYpHONE."+S, "valid", "mYpHONE", "sni"
+		}))
+		ctxCase(nil, []string{"MyPhone"}, nil, S, true, with(base(proxy.ProtoQUIC), func(x *c03Ctx) {
+			x.HasConn, x.SNI, x.Kind, x.Presented, x.Route = true, "MYPHONE."+S, "valid", "MYPHONE", "sni"
+		}))
+		ctxCase(nil, []string{"MyPhone"}, nil, S, true, with(base(proxy.ProtoHTTPS), func(x *c03Ctx) {
+			x.HasReq, x.Path, x.HasTLS, x.ReqSNI, x.Kind, x.Presented, x.Route = true, "/dns-query/myPhone", true, S, "valid", "myPhone", "doh-path"
+		}))
+		ctxCase(nil, []string{"MyPhone"}, nil, S, false, with(base(proxy.ProtoHTTPS), func(x *c03Ctx) {
+			x.HasReq, x.Path, x.HasTLS, x.ReqSNI, x.Kind, x.Presented, x.Route = true, "/dns-query", true, "MyPHONE."+S, "valid", "MyPHONE", "doh-tls-name"
+		}))
+		ctxCase(nil, []string{"MyPhone"}, nil, S, false, with(base(proxy.ProtoHTTPS), func(x *c03Ctx) {
+			x.HasReq, x.Path, x.HostHdr, x.Kind, x.Presented, x.Route = true, "/dns-query", "MyPhonE."+S+":443", "valid", "MyPhonE", "doh-host-header"
+		}))
+		// the path wins over the server name: the allowed id is in the name only
+		ctxCase([]string{"kid"}, nil, nil, S, true, with(base(proxy.ProtoHTTPS), func(x *c03Ctx) {
+			x.HasReq, x.Path, x.HasTLS, x.ReqSNI, x.Kind, x.Presented, x.Route = true, "/dns-query/x1", true, "kid."+S, "valid", "x1", "doh-path-wins"
+		}))
+		// allow-list mode: listed ClientID from an unlisted address
+		ctxCase([]string{"KID", "10.0.0.0/8"}, []string{"kid"}, nil, S, true, with(base(proxy.ProtoTLS), func(x *c03Ctx) {
+			x.HasConn, x.SNI, x.Kind, x.Presented, x.Route = true, "Kid."+S, "valid", "Kid", "sni"
+		}))
+		// unusable ClientID from an excluded address: SERVFAIL, not REFUSED
+		ctxCase(nil, []string{"192.168.0.0/16"}, nil, S, true, with(base(proxy.ProtoTLS), func(x *c03Ctx) {
+			x.HasConn, x.SNI, x.Kind, x.Route = true, "bad_id."+S, "invalid", "sni"
+		}), "ctx-invalid-clientid-excluded-address")
+		ctxCase(nil, []string{"192.168.0.0/16"}, nil, S, true, with(base(proxy.ProtoHTTPS), func(x *c03Ctx) {
+			x.HasReq, x.Path, x.HasTLS, x.ReqSNI, x.Kind, x.Route = true, "/dns-query/bad_id", true, S, "invalid", "doh-path"
+		}), "ctx-invalid-clientid-excluded-address")
+		ctxCase(nil, []string{"192.168.0.0/16"}, nil, S, true, with(base(proxy.ProtoQUIC), func(x *c03Ctx) {
+			x.HasConn, x.SNI, x.Kind, x.Route = true, "kid.other.example", "invalid", "sni-lookalike"
+		}), "ctx-invalid-clientid-excluded-address")
+		ctxCase(nil, []string{"kid"}, nil, S, false, with(base(proxy.ProtoQUIC), func(x *c03Ctx) {
+			x.HasConn, x.SNI, x.Kind, x.Route = true, "kid.other.example", "none", "sni-lookalike"
+		}))
+		ctxCase(nil, []string{"kid"}, nil, S, true, with(base(proxy.ProtoHTTPS), func(x *c03Ctx) {
+			x.HasReq, x.Kind, x.Route = false, "invalid", "doh-nil-request"
+		}))
+		ctxCase(nil, []string{"kid"}, nil, S, true, with(base(proxy.ProtoTLS), func(x *c03Ctx) {
+			x.Kind, x.Route = "invalid", "conn-no-tls"
+		}))
+		// no configured server name: the connection's name gives no ClientID
+		ctxCase(nil, []string{"kid"}, nil, "", true, with(base(proxy.ProtoTLS), func(x *c03Ctx) {
+			x.HasConn, x.SNI, x.Kind, x.Route = true, "kid.", "none", "sni"
+		}))
+		// plain protocols ignore leftovers
+		ctxCase(nil, []string{"kid"}, nil, S, true, with(base(proxy.ProtoUDP), func(x *c03Ctx) {
+			x.HasConn, x.SNI, x.HasReq, x.Path, x.Route = true, "kid."+S, true, "/dns-query/kid", "plain"
+		}))
+		ctxCase(nil, []string{"192.168.1.5"}, nil, S, true, with(base(proxy.ProtoDNSCrypt), func(x *c03Ctx) {
+			x.HasConn, x.SNI, x.Route = true, "bad_id."+S, "plain"
+		}))
+	}
+	rc := rnd.Fork(11)
+	nCtx := out.Scale(2500, 40000)
+	for i := 0; i < nCtx; i++ {
+		var allowed, blocked []string
+		switch rc.Intn(4) {
+		case 0:
+			allowed = c03List(rc, 3)
+		case 1:
+		default:
+			blocked = c03List(rc, 4)
+		}
+		var hosts []*vfRule
+		if rc.Chance(1, 4) {
+			hosts = c03HostRules(rc, 2)
+		}
+		srv := c03SrvName
+		if rc.Chance(1, 12) {
+			srv = ""
+		}
+		strict := rc.Bool()
+		for k := 0; k < 2; k++ {
+			name := vfMixCase(rc, vfPick(rc, vfNames)) + "."
+			x := c03GenCtx(rc, srv, strict, c03Addr(rc), q(name, vfPick(rc, vfQTypes)), uint64(5000+i*2+k))
+			if x.Kind == "valid" && rc.Chance(1, 3) {
+				// make the presented ClientID a listed one
+				e := vfMixCase(rc, strings.ToLower(x.Presented))
+				if len(allowed) > 0 {
+					allowed = append(append([]string{}, allowed...), e)
+				} else {
+					blocked = append(append([]string{}, blocked...), e)
+				}
+			}
+			ctxCase(allowed, blocked, hosts, srv, strict, x)
+		}
+	}
+
+	// --- histories on one server: real HandleBefore and real processInitial
+	// over the real golibs cache of a small capacity
+	hs := createTestServer(t, &filtering.Config{BlockingMode: filtering.BlockingModeDefault}, ServerConfig{
+		UDPListenAddrs: []*net.UDPAddr{{IP: net.IP{127, 0, 0, 1}}},
+		TCPListenAddrs: []*net.TCPAddr{{IP: net.IP{127, 0, 0, 1}}},
+		TLSConf:        &TLSConfig{},
+		Config: Config{
+			UpstreamMode:     UpstreamModeLoadBalance,
+			EDNSClientSubnet: &EDNSClientSubnet{Enabled: false},
+			ClientsContainer: EmptyClientsContainer{},
+		},
+		ServePlainDNS: true,
+	})
+	hs.addrProc = &aghtest.AddressProcessor{
+		OnProcess: func(context.Context, netip.Addr) {},
+		OnClose:   func() (err error) { return nil },
+	}
+	ownCache := hs.clientIDCache
+
+	type histOp struct {
+		x   *c03Ctx // non-nil: HandleBefore
+		rid uint64  // processInitial of this request id
+	}
+	initialRead := func(pctx *proxy.DNSContext) (read string, panicked any) {
+		defer func() { panicked = recover() }()
+		dctx := &dnsContext{proxyCtx: pctx}
+		hs.processInitial(dctx)
+		return dctx.clientID, nil
+	}
+	hist := func(capN uint, allowed, blocked []string, hosts []*vfRule, srv string, strict bool, ops []histOp, extra ...string) {
+		a, err := newAccessCtx(allowed, blocked, vfRuleTexts(hosts))
+		if err != nil {
+			t.Fatalf("newAccessCtx: %v", err)
+		}
+		hs.access = a
+		hs.clientIDCache = cache.New(cache.Config{EnableLRU: true, MaxCount: capN})
+		hs.conf.TLSConf = &TLSConfig{ServerName: srv, StrictSNICheck: strict}
+
+		type admit struct {
+			at int
+			id string
+		}
+		lastAdmit := map[uint64]admit{}
+		everID := map[uint64]bool{}
+		ctxOf := map[uint64]*c03Ctx{}
+		var opsCoq, obsCoq []string
+		var descOps []any
+		classes := append([]string{fmt.Sprintf("hist-cap-%d", capN)}, extra...)
+		monitorMsg := ""
+		for i, op := range ops {
+			if op.x != nil {
+				x := op.x
+				ctxOf[x.RID] = x
+				cnt0 := hs.clientIDCache.Stats().Count
+				herr := hs.HandleBefore(nil, x.pctx())
+				cnt1 := hs.clientIDCache.Stats().Count
+				var bre *proxy.BeforeRequestError
+				obs, through := "BDrop", false
+				switch {
+				case herr == nil:
+					obs, through = "(BContinue (@None bytes))", true
+				case errors.As(herr, &bre):
+					if bre.Response.Rcode == dns.RcodeRefused {
+						obs = "BRefused"
+					} else {
+						obs = "BServfail"
+					}
+				}
+				opsCoq = append(opsCoq, vfApp("HBefore", x.coq()))
+				obsCoq = append(obsCoq, vfApp("OBefore", obs))
+				descOps = append(descOps, map[string]any{"op": "HandleBefore", "ctx": x.desc(), "outcome": obs})
+				if through {
+					id := x.wantID()
+					lastAdmit[x.RID] = admit{at: i, id: id}
+					if id != "" {
+						everID[x.RID] = true
+						classes = append(classes, "hist-admitted-with-clientid")
+					} else {
+						classes = append(classes, "hist-admitted-no-clientid")
+					}
+				} else {
+					classes = append(classes, "hist-not-admitted")
+					if cnt1 != cnt0 && monitorMsg == "" {
+						monitorMsg = fmt.Sprintf("step %d: a request that was not let through (%s) changed the ClientID cache (%d -> %d entries)", i, obs, cnt0, cnt1)
+					}
+				}
+				continue
+			}
+			var pctx *proxy.DNSContext
+			if x := ctxOf[op.rid]; x != nil {
+				pctx = x.pctx()
+			} else {
+				pctx = &proxy.DNSContext{Proto: proxy.ProtoUDP, Req: q("a.test.", dns.TypeA), RequestID: op.rid,
+					Addr: netip.AddrPortFrom(ip("10.0.0.1"), 5353)}
+			}
+			read, pan := initialRead(pctx)
+			if pan != nil {
+				read = fmt.Sprintf("<panic: %v>", pan)
+				if monitorMsg == "" {
+					monitorMsg = fmt.Sprintf("step %d: processInitial panicked: %v", i, pan)
+				}
+			}
+			opsCoq = append(opsCoq, vfApp("HInitial", vfN(op.rid)))
+			obsCoq = append(obsCoq, vfApp("OInitial", vfBytes(read)))
+			descOps = append(descOps, map[string]any{"op": "processInitial", "request_id": op.rid, "clientid_read": read})
+			la, admitted := lastAdmit[op.rid]
+			switch {
+			case admitted && la.id != "" && uint(i-la.at-1) < capN:
+				classes = append(classes, "hist-read-own-clientid")
+				if i-la.at-1 > 0 {
+					classes = append(classes, "hist-read-after-interleaving")
+				}
+				if read != la.id && monitorMsg == "" {
+					monitorMsg = fmt.Sprintf("step %d: request %d was admitted with ClientID %q at step %d (%d steps of other requests in between, cache capacity %d) but processInitial read %q",
+						i, op.rid, la.id, la.at, i-la.at-1, capN, read)
+				}
+			case !everID[op.rid]:
+				classes = append(classes, "hist-read-empty")
+				if read != "" && monitorMsg == "" {
+					monitorMsg = fmt.Sprintf("step %d: no request with id %d was admitted with a ClientID, but processInitial read %q", i, op.rid, read)
+				}
+			case admitted && la.id != "" && read == "":
+				classes = append(classes, "hist-clientid-evicted")
+			}
+		}
+		count := hs.clientIDCache.Stats().Count
+		c := vfCase{
+			Coq: vfApp("CHist", vfN(uint64(capN)), c03EntriesCoq(allowed), c03EntriesCoq(blocked), vfRulesCoq(hosts), vfBytes(srv), vfBool(strict),
+				vfList("hop", opsCoq), vfList("hobs", obsCoq), vfN(uint64(count))),
+			Nontrivial: true,
+			Classes:    classes,
+			MonitorOK:  monitorMsg == "",
+			MonitorMsg: monitorMsg,
+			Desc: map[string]any{"cache_capacity": capN, "allowed": allowed, "disallowed": blocked, "blocked_hosts": vfRuleTexts(hosts),
+				"server_name": srv, "strict": strict, "steps": descOps, "final_cache_entries": count},
+		}
+		if monitorMsg != "" {
+			c.MonitorMsg = monitorMsg + fmt.Sprintf(" (allowed=%q disallowed=%q blocked_hosts=%q server_name=%q strict=%v steps=%v)",
+				allowed, blocked, vfRuleTexts(hosts), srv, strict, descOps)
+			c.FindingKey = "hist-" + vfHash(capN, allowed, blocked, vfRuleTexts(hosts), srv, strict, fmt.Sprint(descOps))
+		}
+		out.Emit(c)
+	}
+	dot := func(label string, addr string, rid uint64) *c03Ctx {
+		x := &c03Ctx{Proto: proxy.ProtoTLS, HasConn: true, SNI: c03SrvName, Addr: ip(addr), Req: q("a.test.", dns.TypeA), RID: rid, Kind: "none", Route: "sni"}
+		if label != "" {
+			x.SNI, x.Kind, x.Presented = label+"."+c03SrvName, "valid", label
+			if strings.Contains(label, "_") {
+				x.Kind, x.Presented = "invalid", ""
+			}
+		}
+		return x
+	}
+	// prelude: admitted -> read; refused -> read; eviction at the window's edge
+	hist(4, nil, []string{"kid"}, nil, c03SrvName, true, []histOp{
+		{x: dot("MyPhone", "10.0.0.1", 1)}, {x: dot("KID", "10.0.0.1", 2)}, {x: dot("", "10.0.0.1", 3)},
+		{rid: 2}, {rid: 3}, {rid: 1}, {rid: 1}, {rid: 9},
+	})
+	hist(2, nil, nil, nil, c03SrvName, true, []histOp{
+		{x: dot("a1", "10.0.0.1", 1)}, {x: dot("a2", "10.0.0.1", 2)}, {rid: 1}, {rid: 2},
+	})
+	hist(2, nil, nil, nil, c03SrvName, true, []histOp{
+		{x: dot("a1", "10.0.0.1", 1)}, {x: dot("a2", "10.0.0.1", 2)}, {x: dot("a3", "10.0.0.1", 3)}, {rid: 1}, {rid: 2}, {rid: 3},
+	})
+	hist(1, nil, nil, nil, c03SrvName, true, []histOp{
+		{x: dot("a1", "10.0.0.1", 1)}, {rid: 1}, {x: dot("a2", "10.0.0.1", 2)}, {x: dot("bad_id", "10.0.0.1", 3)}, {rid: 2}, {rid: 1},
+	})
+	hist(3, nil, nil, nil, c03SrvName, true, []histOp{
+		// the same request id written twice; a read refreshes the entry
+		{x: dot("a1", "10.0.0.1", 1)}, {x: dot("a2", "10.0.0.1", 2)}, {x: dot("a3", "10.0.0.1", 3)}, {rid: 1},
+		{x: dot("a4", "10.0.0.1", 4)}, {x: dot("b1", "10.0.0.1", 1)}, {x: dot("a5", "10.0.0.1", 5)}, {rid: 1}, {rid: 2}, {rid: 3},
+	})
+	rh := rnd.Fork(12)
+	nHist := out.Scale(500, 8000)
+	for i := 0; i < nHist; i++ {
+		var allowed, blocked []string
+		switch rh.Intn(5) {
+		case 0:
+			allowed = c03List(rh, 3)
+		case 1, 2:
+			blocked = c03List(rh, 3)
+		}
+		var hosts []*vfRule
+		if rh.Chance(1, 6) {
+			hosts = c03HostRules(rh, 2)
+		}
+		strict := rh.Bool()
+		capN := uint(vfPick(rh, []int{1, 2, 2, 3, 3, 4, 16}))
+		nOps := 4 + rh.Intn(10)
+		var ops []histOp
+		var pending []uint64
+		next := uint64(1)
+		for len(ops) < nOps {
+			if len(pending) > 0 && rh.Chance(2, 5) {
+				k := rh.Intn(len(pending))
+				ops = append(ops, histOp{rid: pending[k]})
+				if !rh.Chance(1, 5) {
+					pending = append(pending[:k], pending[k+1:]...)
+				}
+				continue
+			}
+			rid := next
+			next++
+			if next > 2 && rh.Chance(1, 12) {
+				rid = 1 + uint64(rh.Intn(int(next-1)))
+			}
+			addr := c03Addr(rh)
+			if !addr.IsValid() {
+				addr = ip("10.0.0.1")
+			}
+			x := c03GenCtx(rh, c03SrvName, strict, addr, q(vfPick(rh, vfNames)+".", vfPick(rh, vfQTypes)), rid)
+			ops = append(ops, histOp{x: x})
+			pending = append(pending, rid)
+		}
+		for _, rid := range pending {
+			if rh.Chance(2, 3) {
+				ops = append(ops, histOp{rid: rid})
+			}
+		}
+		hist(capN, allowed, blocked, hosts, c03SrvName, strict, ops)
+	}
+
+	// --- the server's own cache (capacity defaultClientIDCacheCount): how many
+	// other admitted requests may run between a request's hook and its
+	// processInitial before its ClientID is lost
+	evict := func(n int) {
+		a, err := newAccessCtx(nil, nil, nil)
+		if err != nil {
+			t.Fatalf("newAccessCtx: %v", err)
+		}
+		ownCache.Clear()
+		hs.access, hs.clientIDCache = a, ownCache
+		hs.conf.TLSConf = &TLSConfig{ServerName: c03SrvName}
+		_ = hs.HandleBefore(nil, dot("kid", "10.0.0.1", 1).pctx())
+		for i := 0; i < n; i++ {
+			_ = hs.HandleBefore(nil, dot("kid", "10.0.0.1", uint64(i+2)).pctx())
+		}
+		read, pan := initialRead(dot("kid", "10.0.0.1", 1).pctx())
+		c := vfCase{
+			Coq:        vfApp("CEvict", vfN(defaultClientIDCacheCount), vfN(uint64(n)), vfBytes(read)),
+			Nontrivial: true,
+			Classes:    []string{"own-cache-within-window"},
+			MonitorOK:  true,
+			Desc: map[string]any{"cache_capacity": defaultClientIDCacheCount, "interleaved_admitted_requests": n, "clientid_read": read},
+		}
+		if n >= defaultClientIDCacheCount {
+			c.Classes = []string{"own-cache-window-exceeded"}
+		} else if read != "kid" || pan != nil {
+			c.MonitorOK = false
+			c.MonitorMsg = fmt.Sprintf("request admitted with ClientID \"kid\"; after %d other admitted requests (cache capacity %d) processInitial read %q (panic: %v)",
+				n, defaultClientIDCacheCount, read, pan)
+			c.FindingKey = "own-cache-" + vfHash(n, read)
+		}
+		out.Emit(c)
+	}
+	evict(0)
+	evict(defaultClientIDCacheCount - 1)
+	evict(defaultClientIDCacheCount)
+
 	// --- through dnsproxy on loopback sockets
 	wire := func(allowed, blocked []string, hosts []*vfRule, name string) {
 		ups := &c03Upstream{}
@@ -724,5 +1362,143 @@ func TestVerifC03(t *testing.T) {
 			hosts = c03HostRules(rnd, 2)
 		}
 		wire(allowed, blocked, hosts, vfMixCase(rnd, vfPick(rnd, vfNames))+".")
+	}
+
+	// --- DNS-over-TLS through a real listener: the ClientID is the label the
+	// client puts in front of the server name in its TLS handshake
+	srvTLS, _, _ := createServerTLSConfig(t)
+	tlsCert := srvTLS.Certificates[0]
+	wireTLS := func(allowed, blocked []string, hosts []*vfRule, labels []string, name string) {
+		ups := &c03Upstream{}
+		ql := &c03QueryLog{}
+		st := &c03Stats{}
+		s := createTestServer(t, &filtering.Config{
+			ProtectionEnabled: true,
+			BlockingMode:      filtering.BlockingModeDefault,
+		}, ServerConfig{
+			UDPListenAddrs: []*net.UDPAddr{{IP: net.IP{127, 0, 0, 1}}},
+			TCPListenAddrs: []*net.TCPAddr{{IP: net.IP{127, 0, 0, 1}}},
+			TLSConf: &TLSConfig{
+				Cert:           &tlsCert,
+				TLSListenAddrs: []*net.TCPAddr{{IP: net.IP{127, 0, 0, 1}}},
+				ServerName:     tlsServerName,
+			},
+			Config: Config{
+				UpstreamMode:      UpstreamModeLoadBalance,
+				EDNSClientSubnet:  &EDNSClientSubnet{Enabled: false},
+				ClientsContainer:  EmptyClientsContainer{},
+				AllowedClients:    allowed,
+				DisallowedClients: blocked,
+				BlockedHosts:      vfRuleTexts(hosts),
+			},
+			ServePlainDNS: true,
+		})
+		s.conf.UpstreamConfig.Upstreams = []upstream.Upstream{ups}
+		s.queryLog = ql
+		s.stats = st
+		if err := s.Start(); err != nil {
+			t.Fatalf("start: %v", err)
+		}
+		defer func() { _ = s.Stop() }()
+		addr := s.dnsProxy.Addr(proxy.ProtoTLS).String()
+
+		for _, label := range labels {
+			sni := tlsServerName
+			if label != "" {
+				sni = label + "." + tlsServerName
+			}
+			kind := "valid"
+			switch {
+			case label == "":
+				kind = "none"
+			case strings.Contains(label, "_"):
+				kind = "invalid"
+			}
+			id := ""
+			if kind == "valid" {
+				id = strings.ToLower(label)
+			}
+			up0, log0, st0 := ups.calls.Load(), ql.adds.Load(), st.updates.Load()
+			req := createTestMessageWithType(name, dns.TypeA)
+			replyClass := 3
+			conn, err := dns.DialTimeoutWithTLS("tcp-tls", addr, &tls.Config{ServerName: sni, InsecureSkipVerify: true, MinVersion: tls.VersionTLS12}, 10*time.Second)
+			if err != nil {
+				t.Fatalf("dialing DoT %s with server name %q: %v", addr, sni, err)
+			}
+			cl := &dns.Client{Net: "tcp-tls", Timeout: 10 * time.Second}
+			resp, _, err := cl.ExchangeWithConn(req, conn)
+			_ = conn.Close()
+			switch {
+			case err != nil:
+				replyClass = 0
+			case resp.Rcode == dns.RcodeRefused:
+				replyClass = 1
+			case resp.Rcode == dns.RcodeServerFailure:
+				replyClass = 2
+			}
+			runs := ups.calls.Load() - up0
+			logged, counted := ql.adds.Load()-log0, st.updates.Load()-st0
+			cliIP := netip.MustParseAddr("127.0.0.1")
+			c := vfCase{
+				Coq: vfApp("CWire", c03EntriesCoq(allowed), c03EntriesCoq(blocked), vfRulesCoq(hosts), "PTLS",
+					vfOpt("bytes", kind != "invalid", vfBytes(id)), vfOptAddrCoq(cliIP), c03QCoq(req), vfN(uint64(replyClass)), vfN(uint64(runs))),
+				Nontrivial: true,
+				Classes:    []string{fmt.Sprintf("wire-tls-reply-%d", replyClass), "wire-tls-clientid-" + kind},
+				MonitorOK:  true,
+				Desc: map[string]any{"allowed": allowed, "disallowed": blocked, "blocked_hosts": vfRuleTexts(hosts),
+					"proto": "tls", "tls_server_name": sni, "name": name, "reply_class": replyClass, "upstream_calls": runs, "logged": logged, "counted": counted},
+			}
+			fail := func(msg string) {
+				c.MonitorOK = false
+				c.MonitorMsg = fmt.Sprintf("%s (allowed=%q disallowed=%q blocked_hosts=%q proto=tls tls_server_name=%s name=%s reply=%d upstream=%d logged=%d counted=%d)",
+					msg, allowed, blocked, vfRuleTexts(hosts), sni, name, replyClass, runs, logged, counted)
+				c.FindingKey = "wire-tls-" + vfHash(allowed, blocked, vfRuleTexts(hosts), sni, name)
+			}
+			excluded := c03Excluded(allowed, blocked, cliIP, id)
+			hostMust := c03HostMust(hosts, strings.ToLower(strings.TrimSuffix(name, ".")), dns.TypeA)
+			switch {
+			case kind == "invalid":
+				if replyClass != 2 {
+					fail("request with an unusable ClientID must be answered SERVFAIL")
+				} else if runs != 0 || logged != 0 || counted != 0 {
+					fail("request with an unusable ClientID was resolved, logged or counted")
+				}
+			case excluded || hostMust > 0:
+				if replyClass != 1 {
+					fail("excluded request over tls must get REFUSED")
+				} else if runs != 0 || logged != 0 || counted != 0 {
+					fail("excluded request was resolved, logged or counted")
+				}
+			case hostMust < 0:
+				if replyClass != 3 || runs != 1 || logged != 1 || counted != 1 {
+					fail("admitted request was not served exactly once")
+				}
+			}
+			out.Emit(c)
+		}
+	}
+	wireTLS(nil, []string{"MyPhone"}, nil, []string{"", "myPHONE", "kid", "bad_id"}, "a.test.")
+	wireTLS([]string{"KID"}, []string{"127.0.0.1"}, nil, []string{"", "Kid", "x1"}, "a.test.")
+	wireTLS(nil, []string{"127.0.0.0/8"}, []*vfRule{mk("||a.test^")}, []string{"kid", "bad_id"}, "B.a.TEST.")
+	rw := rnd.Fork(13)
+	nWireTLS := out.Scale(2, 20)
+	for i := 0; i < nWireTLS; i++ {
+		var allowed, blocked []string
+		pool := []string{"127.0.0.1", "10.0.0.0/8", "kid", "MyPhone", "Dad-PC", "127.0.0.0/8"}
+		switch rw.Intn(3) {
+		case 0:
+			allowed = []string{vfPick(rw, pool)}
+		case 1:
+			blocked = []string{vfPick(rw, pool), vfPick(rw, pool)}
+		}
+		var hosts []*vfRule
+		if rw.Chance(1, 3) {
+			hosts = c03HostRules(rw, 2)
+		}
+		labels := []string{"", c03FlipCase(rw, vfPick(rw, c03CIDs)), c03FlipCase(rw, vfPick(rw, c03CIDs))}
+		if rw.Chance(1, 3) {
+			labels = append(labels, "bad_id")
+		}
+		wireTLS(allowed, blocked, hosts, labels, vfMixCase(rw, vfPick(rw, vfNames))+".")
 	}
 }
